@@ -315,12 +315,15 @@ Proof.
   destruct s as [b|so].
   { cbn in Hsup. subst b. cbn in Hj. inversion Hj; subst o. reflexivity. }
   destruct (so_reference so) as [r|] eqn:Eref.
-  { destruct so; cbn in Eref; subst. cbn in Hj. inversion Hj; subst o. reflexivity. }
+  { destruct so as [md ity fmt en cst subs num sv arr obj ref ext]; cbn in Eref; subst.
+    cbn [j2oas so_reference so_extensions] in Hj.
+    cbn [annots_js so_reference so_extensions].
+    destruct (ext_nullable ext); inversion Hj; subst o; reflexivity. }
   assert (Hshape : exists d k, o = OItem d k).
   { destruct so; cbn in Eref; subst. cbn in Hj.
     inv_bind_as Hj ty Hty. inv_bind_as Hj kind Hk. inversion Hj; eauto. }
   destruct Hshape as (d & k & ->).
-  pose proof (annotations_kept_top true true name so d k Hsup Hj) as Htop.
+  pose proof (annotations_kept_top true true name so d k Eref Hsup Hj) as Htop.
   destruct so as [md ity fmt en cst subs num sv arr obj ref ext].
   cbn in Eref; subst ref.
   cbn [j2oas so_reference so_instance_type so_subschemas so_enum_values so_object so_array
@@ -397,3 +400,17 @@ Theorem annotations_kept_everywhere s name o :
   supported s = true -> j2oas name s = Ok o ->
   map annot_norm (annots_oas o) = map annot_norm (annots_js name s).
 Proof. exact (annotations_kept_everywhere_n _ s (le_n _) name o). Qed.
+
+(* ---------- {$ref, nullable: true}: "T or null" ---------- *)
+Theorem nullable_reference_kept env pat_ok fmt_ok so name o r :
+  so_reference so = Some r -> ext_nullable (so_extensions so) = true ->
+  j2oas name (SObj so) = Ok o ->
+  forall j, valid_oas env pat_ok fmt_ok o j = is_null j || env r j.
+Proof.
+  intros Hr Hn Hj j.
+  destruct so as [md ity fmt en cst subs num sv arr obj ref ext].
+  cbn [so_reference so_extensions] in Hr, Hn. subst ref.
+  rewrite (meaning_preserved env pat_ok fmt_ok
+             (SObj (mkSObj md ity fmt en cst subs num sv arr obj (Some r) ext)) name o eq_refl Hj).
+  cbn [valid_js so_reference so_extensions]. rewrite Hn. reflexivity.
+Qed.
